@@ -48,6 +48,10 @@ pub const CORPUS: &[&str] = &[
     ">> [mode]: text\nA step that is text @a{1}\n",
     "@&missing @+a @+&b @--c @??d #@r ~&t{1%min} ~x|y{1%min} @a|b|c{} @|{} @{}\n",
     "@a{1/0} @b{%} @c{} #d{1%kg} ~e{1} ~{} @f{=} @g{1-} @h{=1-2%kg}\n",
+    // many labels in one diagnostic, comments with dashes, numbers in text values, wrapped names
+    ">> title: T\n>> a: 1\n>> b: 2\n>> c: 3\n>> d: 4\n>> e: 5\n>> f: 6\n>> g: 7\n>> h: 8\n>> i: 9\nstep\n",
+    "Mix [-- note --] the @flour{1 heaped%cup} [---] and @extra virgin\nolive oil{} (or\nnot)\n",
+    ">> servings: 4|2\n>> prep time: 5\n>> cook time: 3\n>> time: 10\nAdd @a{=1%kg}()\n",
 ];
 
 fn edit_symbols(tier: Tier) -> Vec<&'static str> {
